@@ -9,12 +9,13 @@
    the observation sequence, nothing enumerated.  Hypotheses are computable predicates
    (positive, symmetric, in_range), shown satisfiable by C37_hyps_nonvacuous.
 
-   Finding recorded here: the forward pass contracts prev[j] * transition_n[i, j] (it treats the
-   COLUMN index as the previous state) while the backward pass and the density path use
-   transition_n[prev, next].  For a symmetric transition table (adjacency_distance_trans*2 <= N,
-   C37_circulant_symmetric) the two agree and the sampler is exact (C37_ffbs_is_posterior);
-   otherwise it is not (C37_ffbs_refuted).  estimate_logpdf and data_logpdf are exact
-   unconditionally. *)
+   Repaired defect F37: the forward pass used to contract prev[j] * transition_n[i, j] (the COLUMN
+   index as the previous state) while the backward pass and the density path use
+   transition_n[prev, next].  The model now mirrors the repaired pass (alpha_step) and every theorem
+   holds without a symmetry hypothesis; the old pass is kept as alpha_step_transposed with
+   C37_ffbs_transposed_refuted (it does not sample the posterior on an asymmetric table) and
+   C37_transposed_agrees_when_symmetric / C37_circulant_symmetric (why it went unnoticed:
+   adjacency_distance_trans*2 <= N gives a symmetric table). *)
 From Coq Require Import List Bool ZArith QArith Qcanon.
 Import ListNotations.
 From Model Require Import HMM.
@@ -46,30 +47,23 @@ Theorem C37_posterior_normalised_nonzero : forall N pr tr ob ys,
 Proof. exact posterior_normalised. Qed.
 Print Assumptions C37_posterior_normalised_nonzero.
 
-(* forward filtering: sum_x alpha_T(x) = sum over all latent sequences of the joint ... *)
+(* forward filtering: sum_x alpha_T(x) = sum over all latent sequences of the joint, for every table *)
 Theorem C37_forward_sum : forall N pr tr ob y ys,
-  symmetric N tr = true ->
   qsum (last (alphas N pr tr ob (y :: ys)) []) = marginal N pr tr ob (y :: ys).
 Proof. exact forward_sum. Qed.
 Print Assumptions C37_forward_sum.
-(* ... in general, of the chain with the TRANSPOSED transition table *)
-Theorem C37_forward_sum_transposed : forall N pr tr ob y ys,
-  qsum (last (alphas N pr tr ob (y :: ys)) []) = marginal N pr (transpose N tr) ob (y :: ys).
-Proof. exact forward_sum_transposed. Qed.
-Print Assumptions C37_forward_sum_transposed.
 
-(* backward sampling: the probability that FFBS emits xs is the posterior of xs *)
+(* backward sampling: the probability that FFBS emits xs is the posterior of xs (no symmetry needed) *)
 Theorem C37_ffbs_is_posterior : forall N pr tr ob M,
   positive N pr tr ob M = true ->
   forall y ys xs,
-  symmetric N tr = true ->
   in_range N xs = true -> in_range M (y :: ys) = true -> length xs = S (length ys) ->
   ffbs_pmf N pr tr ob (y :: ys) xs = posterior N pr tr ob xs (y :: ys).
 Proof. exact ffbs_is_posterior. Qed.
 Print Assumptions C37_ffbs_is_posterior.
 Theorem C37_ffbs_normalised : forall N pr tr ob M,
   positive N pr tr ob M = true ->
-  forall y ys, symmetric N tr = true -> in_range M (y :: ys) = true ->
+  forall y ys, in_range M (y :: ys) = true ->
   qsum (map (fun xs => ffbs_pmf N pr tr ob (y :: ys) xs) (seqs N (length (y :: ys)))) = 1.
 Proof. exact ffbs_normalised. Qed.
 Print Assumptions C37_ffbs_normalised.
@@ -82,17 +76,29 @@ Theorem C37_random_weighted_returns_density : forall N pr tr ob choose y ys,
 Proof. exact rw_weight_is_posterior. Qed.
 Print Assumptions C37_random_weighted_returns_density.
 
-(* outside the symmetric region: positive, row-stochastic tables for which the sampler's law differs
-   from the posterior and the forward pass does not sum to the likelihood *)
-Theorem C37_ffbs_refuted :
+(* ---- what the repair F37 fixed: the forward pass with the transposed table (alpha_step_transposed) ---- *)
+(* it summed to the likelihood of the chain with the TRANSPOSED transition table *)
+Theorem C37_forward_sum_transposed : forall N pr tr ob y ys,
+  qsum (last (alphas_transposed N pr tr ob (y :: ys)) []) = marginal N pr (transpose N tr) ob (y :: ys).
+Proof. exact forward_sum_transposed. Qed.
+Print Assumptions C37_forward_sum_transposed.
+(* positive, row-stochastic, asymmetric tables for which its sampler's law differs from the posterior
+   and its forward pass does not sum to the likelihood *)
+Theorem C37_ffbs_transposed_refuted :
   exists N M pr tr ob ys xs,
     positive N pr tr ob M = true /\ row_stochastic N pr tr ob M = true /\
     in_range M ys = true /\ in_range N xs = true /\ length xs = length ys /\
     symmetric N tr = false /\
-    ffbs_pmf N pr tr ob ys xs <> posterior N pr tr ob xs ys /\
-    qsum (last (alphas N pr tr ob ys) []) <> marginal N pr tr ob ys.
-Proof. exact ffbs_refuted. Qed.
-Print Assumptions C37_ffbs_refuted.
+    ffbs_pmf_transposed N pr tr ob ys xs <> posterior N pr tr ob xs ys /\
+    qsum (last (alphas_transposed N pr tr ob ys) []) <> marginal N pr tr ob ys.
+Proof. exact ffbs_transposed_refuted. Qed.
+Print Assumptions C37_ffbs_transposed_refuted.
+(* on a symmetric table the two coincide: the repair changed nothing there *)
+Theorem C37_transposed_agrees_when_symmetric : forall N pr tr ob ys xs,
+  symmetric N tr = true ->
+  ffbs_pmf_transposed N pr tr ob ys xs = ffbs_pmf N pr tr ob ys xs.
+Proof. exact transposed_agrees_when_symmetric. Qed.
+Print Assumptions C37_transposed_agrees_when_symmetric.
 
 (* the configuration's logits: scaled_circulant is symmetric when the band does not wrap onto itself *)
 Theorem C37_circulant_symmetric : forall N k e d i j,
@@ -106,10 +112,11 @@ Theorem C37_circulant_asymmetric_witness :
 Proof. exact circ_asymmetric_witness. Qed.
 Print Assumptions C37_circulant_asymmetric_witness.
 
-(* the hypotheses are satisfiable, on a non-trivial instance (N = 2, T = 3) *)
+(* the hypotheses are satisfiable, on a non-trivial instance with an ASYMMETRIC transition table
+   (N = 2, T = 3) *)
 Example C37_hyps_nonvacuous :
-  positive 2 w_pr w_sym w_ob 2 = true /\ row_stochastic 2 w_pr w_sym w_ob 2 = true /\
-  symmetric 2 w_sym = true /\ in_range 2 [1; 0; 1]%nat = true /\ in_range 2 [0; 1; 1]%nat = true /\
-  marginal 2 w_pr w_sym w_ob [1; 0; 1]%nat <> 0 /\
-  ffbs_pmf 2 w_pr w_sym w_ob [1; 0; 1]%nat [0; 1; 1]%nat = Q2Qc (15 # 812).
+  positive 2 w_pr w_asym w_ob 2 = true /\ row_stochastic 2 w_pr w_asym w_ob 2 = true /\
+  symmetric 2 w_asym = false /\ in_range 2 [1; 0; 1]%nat = true /\ in_range 2 [0; 1; 1]%nat = true /\
+  marginal 2 w_pr w_asym w_ob [1; 0; 1]%nat <> 0 /\
+  ffbs_pmf 2 w_pr w_asym w_ob [1; 0; 1]%nat [0; 1; 1]%nat = Q2Qc (675 # 26288).
 Proof. exact hyps_nonvacuous. Qed.
